@@ -39,6 +39,16 @@ pub fn names_from_universe(u: &Universe) -> Names {
         for l in c.lines.iter().take(6) {
             n.lines.push(*l);
         }
+        for a in c.args.iter().take(3) {
+            if !n.args.contains(a) {
+                n.args.push(a.clone());
+            }
+        }
+    }
+    for a in u.foreign_args.iter().take(3) {
+        if !n.args.contains(a) {
+            n.args.push(a.clone());
+        }
     }
     n.classes.extend(u.extra_classes.iter().cloned());
     n.methods.extend(u.foreign_methods.iter().cloned());
@@ -63,13 +73,58 @@ pub fn make_extras(names: &Names, rng: &mut Rng, n_text: usize, n_typed: usize, 
     }
     let g = TraceGen { names };
     let typed = (0..n_typed)
-        .map(|_| {
+        .map(|i| {
             let canonical = rng.chance(1, 2);
-            g.trace_top(rng, canonical)
+            let mut t = g.trace_top(rng, canonical);
+            // every other trace also carries `with_parameters` frames, placed next to a frame
+            // of the same class and method that has other (or no) parameter information
+            if i % 2 == 1 {
+                decorate_with_params(&mut t, names, rng);
+            }
+            t
         })
         .collect();
     let sigs = (0..n_sig).map(|_| gen_desc(rng, &names.classes).print()).collect();
     Extras { texts, typed, sigs }
+}
+
+fn decorate_with_params(t: &mut TTrace, names: &Names, rng: &mut Rng) {
+    let mut out = Vec::with_capacity(t.frames.len() * 2);
+    for f in t.frames.drain(..) {
+        let arg = |rng: &mut Rng| -> String {
+            if names.args.is_empty() || rng.chance(1, 6) {
+                rng.pick(&["", "int", "java.lang.String", "no.such.Type"]).to_string()
+            } else {
+                rng.pick(&names.args).clone()
+            }
+        };
+        match rng.below(5) {
+            0 => {
+                let mut p = f.clone();
+                p.params = Some(arg(rng));
+                out.push(f);
+                out.push(p);
+            }
+            1 => {
+                let mut p = f.clone();
+                p.params = Some(arg(rng));
+                out.push(p);
+                out.push(f);
+            }
+            2 => {
+                let (mut p, mut q) = (f.clone(), f.clone());
+                p.params = Some(arg(rng));
+                q.params = Some(arg(rng));
+                out.push(p);
+                out.push(q);
+            }
+            _ => out.push(f),
+        }
+    }
+    t.frames = out;
+    if let Some(c) = t.cause.as_mut() {
+        decorate_with_params(c, names, rng);
+    }
 }
 
 #[allow(clippy::too_many_arguments)]
@@ -195,14 +250,24 @@ pub fn diff_remap<'a, A: Remap<'a>, B: Remap<'a>>(
     }
     if o.typed {
         for t in &ex.typed {
+            fn has_params(t: &TTrace) -> bool {
+                t.frames.iter().any(|f| f.params.is_some()) || t.cause.as_ref().map_or(false, |c| has_params(c))
+            }
+            if !o.by_params && has_params(t) {
+                continue; // one side has no parameter index
+            }
             let (x, y) = (a.typed(t), b.typed(t));
             rep.count("evaluations", 1);
             rep.count("api_remap_stacktrace_typed", 1);
+            if has_params(t) {
+                rep.count("typed_traces_with_parameter_frames", 1);
+            }
             if x != *t {
                 rep.distinct(Fp(base_fp).str("typed").str(&t.print()).get());
             }
             if x != y {
-                viol(rep, "remap_stacktrace_typed", Json::s(t.print()), Json::s(x.print()), Json::s(y.print()), "");
+                let show = |t: &TTrace| if t.frames.iter().any(|f| f.params.is_some()) || t.cause.is_some() { format!("{t:?}") } else { t.print() };
+                viol(rep, "remap_stacktrace_typed", Json::s(show(t)), Json::s(show(&x)), Json::s(show(&y)), "");
             }
         }
     }
